@@ -55,6 +55,7 @@ type server struct {
 	tp     *Tape
 	log    []*seen
 	excess bool
+	warm   string // non-empty during an earlier call of a reused client: answer this kind for ever
 }
 
 func (s *server) RoundTrip(req *http.Request) (*http.Response, error) {
@@ -72,6 +73,9 @@ func (s *server) RoundTrip(req *http.Request) (*http.Response, error) {
 	kind := s.tp.Tail
 	if n < len(s.tp.Script) {
 		kind = s.tp.Script[n]
+	}
+	if s.warm != "" {
+		kind = s.warm
 	}
 	e.Resp = kind
 	e.HadBody = req.Body != nil && req.Body != http.NoBody
@@ -175,6 +179,16 @@ func run(tapeJSON json.RawMessage, res *core.Result) {
 	for _, e := range etypes {
 		okEt = okEt || e == tp.Etype
 	}
+	for _, wk := range tp.Warm {
+		ok := false
+		for _, a := range alphabet {
+			ok = ok || a == wk
+		}
+		if !ok || len(tp.Warm) > 4 {
+			res.Verdict, res.Harness = "invalid", "warm-up kind"
+			return
+		}
+	}
 	if !okEt || len(tp.Script) > 8 || tp.BodySize < 0 || tp.BodySize > 2<<20 || tp.Host == "" || strings.ContainsAny(tp.Host, " /\\@") {
 		res.Verdict, res.Harness = "invalid", "shape"
 		return
@@ -227,6 +241,7 @@ func run(tapeJSON json.RawMessage, res *core.Result) {
 	var opErr error
 	var panicMsg string
 	var headerTok string
+	warmExcess, warmRedirectLimit := false, false
 	done := simrt.Spawn(1, "app", simrt.Sched{Mode: "min"}, func() {
 		if e := cl.Login(); e != nil {
 			res.Verdict, res.Harness = "harness-error", "login over a healthy network failed: "+e.Error()
@@ -235,6 +250,22 @@ func run(tapeJSON json.RawMessage, res *core.Result) {
 		hc := &http.Client{Transport: srv}
 		sc := spnego.NewClient(cl, hc, spn)
 		url := "http://" + tp.Host + "/app"
+		for _, wk := range tp.Warm {
+			srv.warm = wk
+			wp, wframe, wmsg := engine.Guard(func() {
+				if r, e := sc.Get("http://" + tp.Host + "/earlier"); e == nil && r != nil {
+					r.Body.Close()
+				}
+			})
+			if wp {
+				panicMsg = wframe + ": " + wmsg
+			}
+			if len(srv.log) >= 10 {
+				warmRedirectLimit = true
+			}
+			warmExcess = warmExcess || srv.excess
+			srv.warm, srv.log, srv.excess = "", nil, false
+		}
 		p, frame, msg := engine.Guard(func() {
 			var rdr io.Reader
 			method := tp.Method
@@ -312,6 +343,15 @@ func run(tapeJSON json.RawMessage, res *core.Result) {
 	// (3) bounded
 	if srv.excess {
 		viol("unbounded", fmt.Sprintf("more than %d requests in one call", maxRequests))
+	}
+	if warmExcess {
+		viol("unbounded", fmt.Sprintf("more than %d requests in an earlier call of the reused client", maxRequests))
+	}
+	if len(tp.Warm) > 0 {
+		res.Probes["reused-client"]++
+		if warmRedirectLimit {
+			res.Probes["reused-client-after-redirect-limit"]++
+		}
 	}
 	// (1) + (2): what follows a bare Negotiate challenge
 	challenged := false
@@ -420,6 +460,11 @@ func run(tapeJSON json.RawMessage, res *core.Result) {
 }
 
 func shapeOf(tp *Tape) string {
+	if len(tp.Warm) > 0 {
+		t := *tp
+		t.Warm = nil
+		return "reused-client+" + shapeOf(&t)
+	}
 	switch {
 	case tp.Tail == "401-negotiate":
 		return "ever-challenging"
